@@ -263,18 +263,21 @@ contract(Contract(
     types={"template": "str", "title": "str"},
     calls={"self.render_children": render_inline("RENDER_CHILDREN"),
            "ImageEl.dest": Callee("attr", ret="str"), "ImageEl.title": Callee("attr", ret="opt[str]"),
-           "_normalize_title_quotes": Callee("uf", ret="str", sig=["title"])},
-    assumes=["_normalize_title_quotes is uninterpreted (what it does to quotes inside a title is the recorded finding C01-title-quotes)"],
+           "_normalize_title_quotes": Callee("uf", ret="str", sig=["title"]),
+           "_link_destination": Callee("uf", ret="str", sig=["dest", "has_title"])},
+    assumes=["_normalize_title_quotes is uninterpreted (what it does to quotes inside a title is the recorded finding C01-title-quotes)",
+             "_link_destination is uninterpreted here: that it writes a destination which reads back as itself (plain when possible, "
+             "<...> otherwise) is the function-level sweep link_destination_roundtrip of the bounded layer"],
     ensures={
-        # alt text = the rendered children, destination verbatim, the title only through _normalize_title_quotes
+        # alt text = the rendered children, the destination through _link_destination only, the title only through _normalize_title_quotes
         "no_title": "implies(isnone(element.title) or val(element.title) == '',"
-                    " result == '![' + logres('RENDER_CHILDREN') + '](' + element.dest + ')')",
+                    " result == '![' + logres('RENDER_CHILDREN') + '](' + call('_link_destination', element.dest, False) + ')')",
         "with_title": "implies(not isnone(element.title) and val(element.title) != '',"
-                      " result == '![' + logres('RENDER_CHILDREN') + '](' + element.dest + ' '"
+                      " result == '![' + logres('RENDER_CHILDREN') + '](' + call('_link_destination', element.dest, True) + ' '"
                       " + call('_normalize_title_quotes', val(element.title)) + ')')",
     },
     canaries=[('template = "![{}]({}{})"', 'template = "![{}]({} {})"', None, ["post[no_title"]),
-              ('return template.format(self.render_children(element), element.dest, title)', 'return template.format(self.render_children(element), element.dest.strip(), title)', None, ["post["])],
+              ('dest = _link_destination(element.dest, bool(element.title))', 'dest = _link_destination(element.dest.strip(), bool(element.title))', None, ["post["])],
 ))
 
 
@@ -296,18 +299,20 @@ contract(Contract(
     calls={"self.render_children": render_inline("RENDER_CHILDREN"),
            "LinkEl.dest": Callee("attr", ret="str"), "LinkEl.title": Callee("attr", ret="opt[str]"),
            "_normalize_title_quotes": Callee("uf", ret="str", sig=["title"]),
+           "_link_destination": Callee("uf", ret="str", sig=["dest", "has_title"]),
            "next": Callee("custom", handler=next_label, lazy=True)},
-    assumes=["which link definition matches (destination, title) is abstracted: the label is an arbitrary optional string"],
+    assumes=["which link definition matches (destination, title) is abstracted: the label is an arbitrary optional string",
+             "_link_destination is uninterpreted here (function-level sweep link_destination_roundtrip of the bounded layer)"],
     ensures={
         # inline form: text, destination verbatim, the title only through _normalize_title_quotes
         "inline_form": "implies(isnone(label) and (isnone(element.title) or val(element.title) == ''),"
-                       " result == '[' + logres('RENDER_CHILDREN') + '](' + element.dest + ')')"
+                       " result == '[' + logres('RENDER_CHILDREN') + '](' + call('_link_destination', element.dest, False) + ')')"
                        " and implies(isnone(label) and not isnone(element.title) and val(element.title) != '',"
-                       " result == '[' + logres('RENDER_CHILDREN') + '](' + element.dest + ' '"
+                       " result == '[' + logres('RENDER_CHILDREN') + '](' + call('_link_destination', element.dest, True) + ' '"
                        " + call('_normalize_title_quotes', val(element.title)) + ')')",
         "reference_form": "implies(not isnone(label), result == '[' + val(label) + ']' or"
                           " result == '[' + logres('RENDER_CHILDREN') + '][' + val(label) + ']')",
     },
-    canaries=[('return f"[{link_text}]({element.dest}{title})"', 'return f"[{link_text}]({element.dest.strip()}{title})"', None, ["post[inline_form"]),
+    canaries=[('dest = _link_destination(element.dest, link_title is not None)', 'dest = _link_destination(element.dest.strip(), link_title is not None)', None, ["post[inline_form"]),
               ('return f"[{link_text}][{label}]"', 'return f"[{label}][{link_text}]"', None, ["post[reference_form"])],
 ))
